@@ -118,34 +118,53 @@ Proof.
   - unfold delivered, pending. cbn [run_cmd cmd runs]. rewrite Ec, map_app, concat_app. cbn. now rewrite !app_nil_r.
 Qed.
 
+Lemma flush_dir_inv s : inv s -> (execdir = true -> current_dir s = None -> cmd s = None) ->
+  inv (flush_dir execdir ok s) /\ delivered (flush_dir execdir ok s) = delivered s /\
+  (execdir = true -> cmd (flush_dir execdir ok s) = None).
+Proof.
+  intros I Hn. unfold flush_dir. destruct (current_dir s) as [d|] eqn:Ed.
+  - apply finished_dir_inv; auto.
+  - split; [exact I|split; [reflexivity|]]. intros He. now apply Hn.
+Qed.
+
+Lemma set_dir_inv d s : inv s -> (execdir = true -> cmd s = None) ->
+  inv (set_dir d s) /\ delivered (set_dir d s) = delivered s.
+Proof.
+  intros I Hc. split; [|reflexivity].
+  constructor; cbn [set_dir cmd runs current_dir failed]; try apply I.
+  intros He. destruct (inv_dir _ I He) as [_ Hr]. split; [|exact Hr].
+  unfold pending. cbn [set_dir cmd]. rewrite (Hc He). constructor.
+Qed.
+
 Lemma step_inv s e : inv s -> (execdir = true -> eparent e <> None) -> (reached e = true -> fits e budget = true) ->
   (execdir = true -> current_dir s = None -> cmd s = None) ->
   inv (step s e) /\ delivered (step s e) = delivered s ++ (if reached e then [e] else []) /\
   (execdir = true -> current_dir (step s e) = None -> cmd (step s e) = None).
 Proof.
   intros I Hp Hfit Hnone. unfold step.
-  set (s1 := if opt_eqb (eparent e) (current_dir s) then s else _).
+  set (s1 := if opt_eqb (eparent e) (current_dir s) && negb (eown e) then s else _).
   assert (I1 : inv s1 /\ delivered s1 = delivered s /\ (execdir = true -> current_dir s1 = eparent e)).
-  { unfold s1. destruct (opt_eqb (eparent e) (current_dir s)) eqn:E.
-    - apply opt_eqb_eq in E. split; [exact I|split; [reflexivity|auto]].
-    - destruct (current_dir s) as [d|] eqn:Ed.
-      + destruct (finished_dir_inv d s I (fun _ => Ed)) as (I' & Hdel & Hc).
-        split; [|split; [exact Hdel|reflexivity]].
-        constructor; cbn [cmd runs current_dir failed]; try apply I'.
-        intros He. destruct (inv_dir _ I' He) as [_ Hr]. split; [|exact Hr].
-        unfold pending. cbn [cmd]. rewrite (Hc He). constructor.
-      + split; [|split; [reflexivity|reflexivity]].
-        constructor; cbn [cmd runs current_dir failed]; try apply I.
-        intros He. destruct (inv_dir _ I He) as [_ Hr]. split; [|exact Hr].
-        unfold pending. cbn [cmd]. rewrite (Hnone He eq_refl). constructor. }
+  { unfold s1. destruct (opt_eqb (eparent e) (current_dir s) && negb (eown e)) eqn:E.
+    - apply andb_true_iff in E as [E _]. apply opt_eqb_eq in E. split; [exact I|split; [reflexivity|auto]].
+    - destruct (flush_dir_inv s I Hnone) as (I' & Hdel & Hc).
+      destruct (set_dir_inv (eparent e) _ I' Hc) as (I'' & Hdel').
+      split; [exact I''|]. split; [now rewrite Hdel', Hdel|reflexivity]. }
   clearbody s1. destruct I1 as (I1 & Hdel & Hcd).
-  destruct (reached e) eqn:Er.
-  - destruct (matches_inv s1 e I1 (Hfit eq_refl)) as (I2 & Hd2 & Hc2).
-    { intros He. split; [symmetry; now apply Hcd|now apply Hp]. }
-    split; [exact I2|]. split; [now rewrite Hd2, Hdel|].
-    intros He Hn. rewrite Hc2, (Hcd He) in Hn. exfalso. now apply (Hp He).
-  - split; [exact I1|]. split; [now rewrite Hdel, app_nil_r|].
-    intros He Hn. rewrite (Hcd He) in Hn. exfalso. now apply (Hp He).
+  set (s2 := if reached e then matches e s1 else s1).
+  assert (I2 : inv s2 /\ delivered s2 = delivered s ++ (if reached e then [e] else []) /\ current_dir s2 = current_dir s1).
+  { unfold s2. destruct (reached e) eqn:Er.
+    - destruct (matches_inv s1 e I1 (Hfit eq_refl)) as (I2 & Hd2 & Hc2).
+      { intros He. split; [symmetry; now apply Hcd|now apply Hp]. }
+      split; [exact I2|]. split; [now rewrite Hd2, Hdel|exact Hc2].
+    - split; [exact I1|]. split; [now rewrite Hdel, app_nil_r|reflexivity]. }
+  clearbody s2. destruct I2 as (I2 & Hd2 & Hc2).
+  assert (Hn2 : execdir = true -> current_dir s2 = None -> cmd s2 = None).
+  { intros He Hn. rewrite Hc2, (Hcd He) in Hn. exfalso. now apply (Hp He). }
+  destruct (eown e).
+  - destruct (flush_dir_inv s2 I2 Hn2) as (I3 & Hd3 & Hc3).
+    destruct (set_dir_inv None _ I3 Hc3) as (I4 & Hd4).
+    split; [exact I4|]. split; [now rewrite Hd4, Hd3|]. intros He _. cbn [set_dir cmd]. now apply Hc3.
+  - split; [exact I2|]. split; [exact Hd2|exact Hn2].
 Qed.
 
 Lemma fold_inv : forall es s, inv s -> Forall (fun e => execdir = true -> eparent e <> None) es -> allfit es ->
@@ -184,11 +203,9 @@ Proof.
   set (s := fold_left step es st0) in *. clearbody s.
   change (delivered st0 ++ filter reached es) with (filter reached es) in Hd.
   unfold ExecMulti.finish.
-  set (s1 := match current_dir s with Some d => finished_dir execdir ok d s | None => s end).
+  set (s1 := flush_dir execdir ok s).
   assert (I1 : inv s1 /\ delivered s1 = delivered s /\ (execdir = true -> cmd s1 = None)).
-  { unfold s1. destruct (current_dir s) as [d|] eqn:Ed.
-    - apply finished_dir_inv; auto.
-    - split; [exact I|split; [reflexivity|]]. intros He. now apply Hn. }
+  { unfold s1. now apply flush_dir_inv. }
   clearbody s1. destruct I1 as (I1 & Hd1 & Hc1).
   unfold finished. destruct execdir eqn:He.
   - specialize (Hc1 eq_refl). split; [exact Hc1|]. split.
@@ -228,14 +245,19 @@ Proof.
 Qed.
 Lemma finished_dir_ne d s : nonempty_runs s -> nonempty_runs (finished_dir execdir ok d s).
 Proof. intros H. unfold finished_dir. destruct execdir; [|exact H]. destruct (cmd s) as [[b r]|]; [now apply run_batch_ne|exact H]. Qed.
+Lemma flush_dir_ne s : nonempty_runs s -> nonempty_runs (flush_dir execdir ok s).
+Proof. intros H. unfold flush_dir. destruct (current_dir s); [now apply finished_dir_ne|exact H]. Qed.
 Lemma step_ne s e : nonempty_runs s -> nonempty_runs (step s e).
 Proof.
   intros H. unfold ExecMulti.step.
-  set (s1 := if opt_eqb (eparent e) (current_dir s) then s else _).
+  set (s1 := if opt_eqb (eparent e) (current_dir s) && negb (eown e) then s else _).
   assert (H1 : nonempty_runs s1).
-  { unfold s1. destruct (opt_eqb (eparent e) (current_dir s)); [exact H|]. unfold nonempty_runs. cbn [runs].
-    destruct (current_dir s); [now apply finished_dir_ne|exact H]. }
-  destruct (reached e); [now apply matches_ne|exact H1].
+  { unfold s1. destruct (opt_eqb (eparent e) (current_dir s) && negb (eown e)); [exact H|]. unfold nonempty_runs. cbn [set_dir runs].
+    now apply flush_dir_ne. }
+  clearbody s1.
+  set (s2 := if reached e then matches e s1 else s1).
+  assert (H2 : nonempty_runs s2). { unfold s2. destruct (reached e); [now apply matches_ne|exact H1]. }
+  clearbody s2. destruct (eown e); [|exact H2]. unfold nonempty_runs. cbn [set_dir runs]. now apply flush_dir_ne.
 Qed.
 Theorem run_never_empty es : nonempty_runs (run es).
 Proof.
@@ -245,9 +267,129 @@ Proof.
     { induction es as [|e es IH]; intros s Hs; [exact Hs|]. cbn [fold_left]. apply IH. now apply step_ne. }
     apply G. constructor. }
   set (s := fold_left step es st0) in *. clearbody s.
-  assert (H1 : nonempty_runs (match current_dir s with Some d => finished_dir execdir ok d s | None => s end)).
-  { destruct (current_dir s); [now apply finished_dir_ne|exact H]. }
+  pose proof (flush_dir_ne s H) as H1.
   unfold finished. destruct execdir; [exact H1|].
   destruct (cmd _) as [[b r]|]; [now apply run_batch_ne|exact H1].
+Qed.
+
+(* ---- an entry that is its own directory ("/") shares its invocation with nothing ---- *)
+Definition nonown (b : list entry) : Prop := Forall (fun e => eown e = false) b.
+Definition okb (b : list entry) : Prop := nonown b \/ exists e, b = [e].
+Definition alone (r : option dir * list entry) : Prop := forall e, In e (snd r) -> eown e = true -> snd r = [e].
+Lemma okb_alone r : okb (snd r) -> alone r.
+Proof.
+  intros [H|(e' & H)] e Hin Ho.
+  - unfold nonown in H. rewrite Forall_forall in H. rewrite (H e Hin) in Ho. discriminate.
+  - rewrite H in *. destruct Hin as [->|[]]. reflexivity.
+Qed.
+Definition okruns (s : st) : Prop := Forall (fun r => okb (snd r)) (runs s).
+
+Lemma run_batch_facts cwd b s :
+  cmd (run_batch ok cwd b s) = None /\ current_dir (run_batch ok cwd b s) = current_dir s /\
+  (okruns s -> okb b -> okruns (run_batch ok cwd b s)).
+Proof.
+  destruct b as [|x b']; cbn [run_batch run_cmd cmd current_dir]; (split; [reflexivity|split; [reflexivity|]]).
+  - intros H _. exact H.
+  - intros H Hb. unfold okruns. cbn [runs]. apply Forall_app. split; [exact H|]. constructor; [exact Hb|constructor].
+Qed.
+
+Lemma finished_dir_facts d s : execdir = true ->
+  cmd (finished_dir execdir ok d s) = None /\ current_dir (finished_dir execdir ok d s) = current_dir s /\
+  (okruns s -> okb (pending s) -> okruns (finished_dir execdir ok d s)).
+Proof.
+  intros He. unfold finished_dir. rewrite He. unfold pending. destruct (cmd s) as [[b r]|] eqn:Ec.
+  - apply run_batch_facts.
+  - split; [exact Ec|split; [reflexivity|auto]].
+Qed.
+
+Lemma flush_dir_facts s : execdir = true -> (current_dir s = None -> cmd s = None) ->
+  cmd (flush_dir execdir ok s) = None /\ (okruns s -> okb (pending s) -> okruns (flush_dir execdir ok s)).
+Proof.
+  intros He Hn. unfold flush_dir. destruct (current_dir s) as [d|].
+  - destruct (finished_dir_facts d s He) as (A & _ & C). split; assumption.
+  - split; [now apply Hn|auto].
+Qed.
+
+Lemma matches_facts e s : okruns s -> nonown (pending s) ->
+  current_dir (matches e s) = current_dir s /\ okruns (matches e s) /\
+  (eown e = false -> nonown (pending (matches e s))) /\
+  (pending s = [] -> pending (matches e s) = [e] \/ pending (matches e s) = []).
+Proof.
+  intros Hr Hp. unfold ExecMulti.matches.
+  assert (Hb : match cmd s with Some c => c | None => ([], budget) end = (pending s, match cmd s with Some (_, r) => r | None => budget end)).
+  { unfold pending. destruct (cmd s) as [[b r]|]; reflexivity. }
+  rewrite Hb. set (b := pending s) in *. set (rem := match cmd s with Some (_, r) => r | None => budget end).
+  destruct (fits e rem).
+  - cbn [current_dir runs]. split; [reflexivity|]. split; [exact Hr|]. unfold pending. cbn [cmd]. split.
+    + intros Ho. apply Forall_app. split; [exact Hp|]. constructor; [exact Ho|constructor].
+    + intros ->. left. reflexivity.
+  - destruct (run_batch_facts (if execdir then eparent e else None) b s) as (_ & Hcd & Hok).
+    specialize (Hok Hr (or_introl Hp)).
+    destruct (fits e budget); cbn [current_dir runs]; (split; [exact Hcd|]); (split; [exact Hok|]); unfold pending; cbn [cmd]; split.
+    + intros Ho. constructor; [exact Ho|constructor].
+    + intros _. left. reflexivity.
+    + intros _. constructor.
+    + intros _. right. reflexivity.
+Qed.
+
+Record jnv (s : st) : Prop := {
+  j_none : current_dir s = None -> cmd s = None;
+  j_pending : nonown (pending s);
+  j_runs : okruns s
+}.
+
+Lemma step_jnv s e : execdir = true -> eparent e <> None -> jnv s -> jnv (step s e).
+Proof.
+  intros He Hpar J. unfold ExecMulti.step.
+  set (s1 := if opt_eqb (eparent e) (current_dir s) && negb (eown e) then s else _).
+  assert (J1 : jnv s1 /\ current_dir s1 = eparent e /\ (eown e = true -> pending s1 = [])).
+  { unfold s1. destruct (opt_eqb (eparent e) (current_dir s) && negb (eown e)) eqn:E.
+    - apply andb_true_iff in E as [E Eo]. apply opt_eqb_eq in E. apply negb_true_iff in Eo.
+      split; [exact J|]. split; [now symmetry|]. intros Ho. congruence.
+    - destruct (flush_dir_facts s He (j_none s J)) as (Hc & Hok).
+      assert (Hpe : pending (set_dir (eparent e) (flush_dir execdir ok s)) = []).
+      { unfold pending. cbn [set_dir cmd]. now rewrite Hc. }
+      split; [|split; [reflexivity|intros _; exact Hpe]].
+      constructor.
+      + intros _. exact Hc.
+      + rewrite Hpe. constructor.
+      + unfold okruns. cbn [set_dir runs]. apply Hok; [apply J|left; apply J]. }
+  clearbody s1. destruct J1 as (J1 & Hcd1 & Hown1).
+  set (s2 := if reached e then matches e s1 else s1).
+  assert (J2 : current_dir s2 = eparent e /\ okruns s2 /\ (eown e = false -> nonown (pending s2)) /\
+               (eown e = true -> pending s2 = [e] \/ pending s2 = [])).
+  { unfold s2. destruct (reached e).
+    - destruct (matches_facts e s1 (j_runs _ J1) (j_pending _ J1)) as (A & B & C & D).
+      split; [now rewrite A|]. split; [exact B|]. split; [exact C|]. intros Ho. apply D. now apply Hown1.
+    - split; [exact Hcd1|]. split; [apply J1|]. split; [intros _; apply J1|]. intros Ho. right. now apply Hown1. }
+  clearbody s2. destruct J2 as (Hcd2 & Hr2 & Hno2 & Hown2).
+  destruct (eown e) eqn:Eo.
+  - destruct (flush_dir_facts s2 He) as (Hc & Hok).
+    { intros Hn. rewrite Hcd2 in Hn. contradiction. }
+    assert (Hpe : pending (set_dir None (flush_dir execdir ok s2)) = []).
+    { unfold pending. cbn [set_dir cmd]. now rewrite Hc. }
+    constructor.
+    + intros _. exact Hc.
+    + rewrite Hpe. constructor.
+    + unfold okruns. cbn [set_dir runs]. apply Hok; [exact Hr2|].
+      destruct (Hown2 eq_refl) as [H|H]; rewrite H; [right; now exists e|left; constructor].
+  - constructor.
+    + intros Hn. rewrite Hcd2 in Hn. contradiction.
+    + now apply Hno2.
+    + exact Hr2.
+Qed.
+
+Theorem own_dir_alone es : execdir = true -> Forall (fun e => eparent e <> None) es ->
+  Forall alone (runs (run es)).
+Proof.
+  intros He Hp. unfold ExecMulti.run, ExecMulti.finish.
+  assert (J : jnv (fold_left step es st0)).
+  { assert (G : forall s, jnv s -> jnv (fold_left step es s)).
+    { induction Hp as [|e es Hpe _ IH]; intros s Js; [exact Js|]. cbn [fold_left]. apply IH. now apply step_jnv. }
+    apply G. constructor; cbn; [reflexivity|constructor|constructor]. }
+  set (s := fold_left step es st0) in *. clearbody s.
+  destruct (flush_dir_facts s He (j_none s J)) as (_ & Hok).
+  specialize (Hok (j_runs s J) (or_introl (j_pending s J))).
+  unfold finished. destruct execdir; [|discriminate]. eapply Forall_impl; [|exact Hok]. intros r. apply okb_alone.
 Qed.
 End P.
